@@ -656,9 +656,13 @@ def value_vectors(ctx, case, idx, tier):
     allw = widths + ([sw] if sw else [])
     total = sum(allw)
     limit = 12 if (tier == 'thorough' and case['tag'] == 'tiny') else 8
-    if total <= limit:
-        return [tuple(t) for t in itertools.product(*[range(1 << w) for w in allw])], True
     rng = ctx.sub_rng('values', idx, case['op'])
+    if total <= limit:
+        allv = [tuple(t) for t in itertools.product(*[range(1 << w) for w in allw])]
+        if tier == 'quick' and case['tag'] != 'tiny' and len(allv) > 24:
+            # keep the quick tier's size independent of the widths the seed happened to draw
+            return [allv[0], allv[-1]] + rng.sample(allv[1:-1], 22), False
+        return allv, True
     n = 6 if tier == 'quick' else 12
     if case['tag'] == 'sweep':
         n = 2 if tier == 'quick' else 4
